@@ -66,35 +66,19 @@ Theorem width_irrelevant_roll_tuple : forall t rows,
 Proof. exact width_irrelevant_roll_tuple_proof. Qed.
 Print Assumptions width_irrelevant_roll_tuple.
 
-(* ---- getitem: (coords - start) // step.
-   Full statement (FALSE of the code as it stands, finding D6 and its generalisation):
-     forall t n start stop step c, std t -> can_store (DInt t) n = true -> norm_slice n start step ->
-       coords_in n c ->
-       rmap tv (m_getitem (DInt t) start stop step c) = rmap tv (m_getitem DInf start stop step c)
-       \/ m_getitem (DInt t) start stop step c = Raise ValueError.
-   It holds exactly when the step is representable in the coordinate type (getitem_clause);
-   otherwise the call raises OverflowError (getitem_unrepresentable_step). *)
-Theorem width_irrelevant_getitem_partial : forall t n start stop step c,
-  std t -> can_store (DInt t) n = true -> norm_slice n start step -> coords_in n c ->
-  getitem_clause t step = true ->
-  rmap tv (m_getitem (DInt t) start stop step c) = rmap tv (m_getitem DInf start stop step c).
-Proof. exact width_irrelevant_getitem_partial_proof. Qed.
-Print Assumptions width_irrelevant_getitem_partial.
+(* ---- getitem: (coords.astype(intp) - start) // step (D6 repaired by 0a2ad47: full statement, for
+        every index type, every step sign and magnitude) *)
+Theorem width_irrelevant_getitem : forall t start stop step c,
+  m_getitem (DInt t) start stop step c = m_getitem DInf start stop step c.
+Proof. exact width_irrelevant_getitem_proof. Qed.
+Print Assumptions width_irrelevant_getitem.
 
-Theorem getitem_unrepresentable_step : forall t start stop step c,
-  getitem_clause t step = false ->
-  m_getitem (DInt t) start stop step c = Raise OverflowError.
-Proof. exact getitem_unrepresentable_step_proof. Qed.
-Print Assumptions getitem_unrepresentable_step.
-
-Theorem width_irrelevant_getitem_refuted :
-  exists t n start stop step c,
-    std t /\ can_store (DInt t) n = true /\ norm_slice n start step /\ coords_in n c /\
-    sg t = false /\ step < 0 /\
-    rmap tv (m_getitem (DInt t) start stop step c) <> rmap tv (m_getitem DInf start stop step c) /\
-    m_getitem (DInt t) start stop step c <> Raise ValueError.
-Proof. exact getitem_refuted_proof. Qed.
-Print Assumptions width_irrelevant_getitem_refuted.
+Theorem getitem_exact : forall d n start stop step c,
+  norm_slice n start step -> coords_in n c -> n < 2 ^ 63 -> - 2 ^ 63 <= step < 2 ^ 63 ->
+  m_getitem d start stop step c =
+  Ok (mkT (DInt i64) (map (fun x => (x - start) / step) (filter (sel_mask start stop step) c))).
+Proof. exact getitem_exact_proof. Qed.
+Print Assumptions getitem_exact.
 
 (* ---- reshape: the dtype re-choice holds every new coordinate *)
 Theorem width_irrelevant_reshape : forall t lin shape,
@@ -117,33 +101,19 @@ Theorem counts_invidx_exact : forall t g,
 Proof. exact counts_invidx_exact_proof. Qed.
 Print Assumptions counts_invidx_exact.
 
-(* ---- triu / tril: coords[-2] + k.
-   Full statement (FALSE: D6 for unsigned types with k < 0, and a silent wrap for representable k):
-     forall t nr r c k, std t -> can_store (DInt t) nr = true -> coords_in nr r ->
-       m_triu (DInt t) r c k = m_triu DInf r c k \/ m_triu (DInt t) r c k = Raise ValueError. *)
-Theorem width_irrelevant_triu_partial : forall t nr r c k,
-  std t -> coords_in nr r -> triu_clause t nr k = true ->
+(* ---- triu / tril: coords[-2].astype(int64) + k <= coords[-1].astype(int64) (repaired by 972d3f2:
+        full statement, any k) *)
+Theorem width_irrelevant_triu_tril : forall t r c k,
   m_triu (DInt t) r c k = m_triu DInf r c k /\ m_tril (DInt t) r c k = m_tril DInf r c k.
-Proof. exact width_irrelevant_triu_partial_proof. Qed.
-Print Assumptions width_irrelevant_triu_partial.
+Proof. exact width_irrelevant_triu_tril_proof. Qed.
+Print Assumptions width_irrelevant_triu_tril.
 
-Theorem triu_unrepresentable_k : forall t r c k,
-  fits (DInt t) k = false ->
-  m_triu (DInt t) r c k = Raise OverflowError /\ m_tril (DInt t) r c k = Raise OverflowError.
-Proof. exact triu_unrepresentable_k_proof. Qed.
-Print Assumptions triu_unrepresentable_k.
-
-Theorem width_irrelevant_triu_refuted_unsigned :
-  exists t nr r c k, std t /\ coords_in nr r /\ can_store (DInt t) nr = true /\ sg t = false /\ k < 0 /\
-    m_triu (DInt t) r c k = Raise OverflowError /\ m_triu DInf r c k = Ok [true; false].
-Proof. exact triu_refuted_unsigned_proof. Qed.
-Print Assumptions width_irrelevant_triu_refuted_unsigned.
-
-Theorem width_irrelevant_triu_refuted_wrap :
-  exists t nr r c k m, std t /\ coords_in nr r /\ can_store (DInt t) nr = true /\ fits (DInt t) k = true /\
-    m_triu (DInt t) r c k = Ok m /\ m_triu DInf r c k <> Ok m.
-Proof. exact triu_refuted_wrap_proof. Qed.
-Print Assumptions width_irrelevant_triu_refuted_wrap.
+Theorem triu_tril_exact : forall d nr nc r c k,
+  coords_in nr r -> coords_in nc c -> nr < 2 ^ 62 -> nc < 2 ^ 63 -> - 2 ^ 62 <= k <= 2 ^ 62 ->
+  m_triu d r c k = Ok (map (fun p => fst p + k <=? snd p) (combine r c)) /\
+  m_tril d r c k = Ok (map (fun p => fst p + k >=? snd p) (combine r c)).
+Proof. exact triu_tril_exact_proof. Qed.
+Print Assumptions triu_tril_exact.
 
 (* ---- kron / pad / stack: arithmetic promoted with intp operands.
    Full statements are FALSE for uint64 (promotion to float64): promoted_ops_refuted. *)
@@ -159,16 +129,17 @@ Theorem width_irrelevant_pad_partial : forall t n c p,
 Proof. exact width_irrelevant_pad_proof. Qed.
 Print Assumptions width_irrelevant_pad_partial.
 
-Theorem stack_dtype_spec : forall t,
-  std t -> (not_u64 t = true -> m_stack_dtype (DInt t) = Ok (DInt i64)) /\
-           (not_u64 t = false -> m_stack_dtype (DInt t) = Raise IndexError).
+Theorem stack_dtype_spec : forall t axis0,
+  std t -> (not_u64 t = true -> m_stack (DInt t) axis0 = Ok (DInt i64)) /\
+           (not_u64 t = false -> m_stack (DInt t) axis0 = if axis0 then Ok DFloat else Raise TypeError).
 Proof. exact stack_dtype_proof. Qed.
 Print Assumptions stack_dtype_spec.
 
 Theorem width_irrelevant_promoted_refuted :
   exists t, std t /\
     m_pad (DInt t) [1] 1 = Raise TypeError /\ m_pad DInf [1] 1 = Ok (mkT DInf [2]) /\
-    m_kron (DInt t) [1] 3 [2] = Raise TypeError /\ m_stack_dtype (DInt t) = Raise IndexError.
+    m_kron (DInt t) [1] 3 [2] = Raise TypeError /\ m_stack (DInt t) true = Ok DFloat /\
+    m_stack (DInt t) false = Raise TypeError.
 Proof. exact promoted_ops_refuted_proof. Qed.
 Print Assumptions width_irrelevant_promoted_refuted.
 
@@ -186,6 +157,15 @@ Theorem width_irrelevant_from_coo_digits : forall t m lin stride dim,
   tv (s_from_coo_digit (DInt t) lin stride dim) = tv (s_from_coo_digit DInf lin stride dim).
 Proof. exact from_coo_digits_proof. Qed.
 Print Assumptions width_irrelevant_from_coo_digits.
+
+Theorem width_irrelevant_from_coo : forall idx t rows cols lin,
+  std t -> match idx with Some (DInt ti) => std ti | Some _ => False | None => True end ->
+  0 < rows -> 0 < cols -> Z.max (Z.max rows cols) (Z.of_nat (length lin)) < 2 ^ 64 ->
+  rmap (fun p => (tv (fst p), tv (snd p))) (m_from_coo idx (DInt t) rows cols lin) =
+  rmap (fun p => (tv (fst p), tv (snd p))) (m_from_coo None DInf rows cols lin)
+  \/ m_from_coo idx (DInt t) rows cols lin = Raise ValueError.
+Proof. exact width_irrelevant_from_coo_proof. Qed.
+Print Assumptions width_irrelevant_from_coo.
 
 (* ---- GCXS concatenate / stack: index-pointer splice after the can_store upcast *)
 Theorem width_irrelevant_gcxs_join : forall t ptrs,
